@@ -19,6 +19,8 @@ fn viol(rule: &str, feats: Vec<String>, detail: String, w: J, replay: String) ->
 struct Drv {
     clock: Arc<AtomicU64>,
     pb: ProgressBar,
+    /// positions are set through `update(|s| s.set_pos(..))` (one call: state change, then the estimator's sample)
+    via_update: bool,
 }
 
 impl Drv {
@@ -26,12 +28,16 @@ impl Drv {
         let clock = Arc::new(AtomicU64::new(7_000_000_000));
         install_session(&clock);
         let pb = ProgressBar::with_draw_target(len, ProgressDrawTarget::hidden());
-        Self { clock, pb }
+        Self { clock, pb, via_update: false }
     }
     fn advance(&self, ns: u64) {
         self.clock.fetch_add(ns, Ordering::SeqCst);
     }
     fn update(&self, pos: u64) {
+        if self.via_update {
+            self.pb.update(|s| s.set_pos(pos));
+            return;
+        }
         self.pb.set_position(pos);
         self.pb.tick(); // make sure the estimator saw this instant even if the update was throttled
     }
@@ -143,6 +149,7 @@ fn run_case(seed: u64, idx: u64) -> CaseOut {
                     let secs = *rng.pick(&[1u64, 60, 3_600, 86_400]);
                     d.pb = ProgressBar::with_draw_target(Some(u64::MAX), ProgressDrawTarget::hidden()).with_elapsed(std::time::Duration::from_secs(secs));
                 }
+                d.via_update = rng.chance(1, 4);
                 // a bar whose steady ticker was switched on and off again is an ordinary manually driven bar
                 if rng.chance(1, 5) {
                     d.pb.enable_steady_tick(Duration::from_secs(rng.range(1, 7200)));
@@ -273,7 +280,7 @@ fn run_case(seed: u64, idx: u64) -> CaseOut {
                 twin.clock.store(reset_at, Ordering::SeqCst);
                 // (the estimator works on position differences, so the twin simply starts at 0)
                 let fresh = ProgressBar::with_draw_target(Some(1 << 62), ProgressDrawTarget::hidden());
-                let twin = Drv { clock: twin.clock, pb: fresh };
+                let twin = Drv { clock: twin.clock, pb: fresh, via_update: false };
                 feed(&twin, &h2, 0);
                 twin.clock.store(end, Ordering::SeqCst);
                 let want = twin.pb.per_sec();
@@ -387,7 +394,7 @@ fn reset_race_case(seed: u64, idx: u64) -> CaseOut {
     );
     vh::install(Some(session.clone()));
     let pb = ProgressBar::with_draw_target(Some(1 << 62), ProgressDrawTarget::hidden());
-    let d = Drv { clock: clock.clone(), pb: pb.clone() };
+    let d = Drv { clock: clock.clone(), pb: pb.clone(), via_update: false };
     let (n1, n2, n3) = (rng.range(1, 10) as usize, rng.range(1, 6) as usize, rng.range(2, 20) as usize);
     let h1 = gen_segments(&mut rng, n1);
     let during = gen_segments(&mut rng, n2);
@@ -442,7 +449,7 @@ fn reset_race_case(seed: u64, idx: u64) -> CaseOut {
         let tclock = Arc::new(AtomicU64::new(reset_at));
         install_session(&tclock);
         let fresh = ProgressBar::with_draw_target(Some(1 << 62), ProgressDrawTarget::hidden());
-        let twin = Drv { clock: tclock.clone(), pb: fresh };
+        let twin = Drv { clock: tclock.clone(), pb: fresh, via_update: false };
         feed(&twin, &h2, 0);
         tclock.store(end, Ordering::SeqCst);
         let want = twin.pb.per_sec();
